@@ -391,6 +391,20 @@ class Tup(tuple):
     pass
 
 
+@dataclass(frozen=True)
+class StrV:
+    """a text field, or the image of one under a named invertible transform"""
+    name: str
+
+    def __repr__(self) -> str:
+        return f"str:{self.name}"
+
+
+# text <-> octets transform pairs treated as mutually inverse on the values the wire format allows
+# (dotted IPv4 text <-> 4 octets; assumption recorded by the clients)
+INVERSE_PAIRS = {"socket.inet_aton": ("socket.inet_ntoa", 4)}
+
+
 # ----------------------------------------------------------------------------- evaluator
 class Run:
     """One path of one evaluation (decisions replayed from a prefix)."""
@@ -512,7 +526,14 @@ class SerEval:
                     if w is None:
                         return BV((), ("f", "#" + s, 0))
                     return BV(tuple(Src("f", "#" + s, i) for i in range(w)))
-            raise Unsupported(f"integer expression {v} used bitwise")
+            # any other integer expression (e.g. a length difference): opaque bits named after the expression
+            lo_, hi_ = run.cons.bounds(v)
+            if lo_ < 0:
+                raise Unsupported(f"possibly negative integer expression {v} used bitwise")
+            nm = f"#({v})"
+            if hi_ == INF:
+                return BV((), ("f", nm, 0))
+            return BV(tuple(Src("f", nm, i) for i in range(int(hi_).bit_length())))
         raise Unsupported(f"not an integer: {v!r}")
 
     def blob_len(self, p: Any) -> Lin:
@@ -953,7 +974,12 @@ class SerEval:
             return
         if isinstance(st, ast.Pass):
             return
+        if isinstance(st, ast.FunctionDef):
+            env[st.name] = ("#closure", st, env)
+            return
         if isinstance(st, ast.Assert):
+            if not self.truth(self.expr(st.test, env, run), run, f"assert line {st.lineno}"):
+                raise AbstractRaise("AssertionError", f"assert at line {st.lineno}")
             return
         raise Unsupported(f"statement {type(st).__name__} at line {st.lineno}")
 
@@ -981,6 +1007,7 @@ class SerEval:
             o = self.expr(t.value, env, run)
             if isinstance(o, Obj):
                 o.fields[t.attr] = v
+                run.__dict__.setdefault("assigned", {}).setdefault(id(o), set()).add(t.attr)
                 return
         raise Unsupported(f"assignment target {ast.unparse(t)}")
 
@@ -1038,6 +1065,9 @@ class SerEval:
             if all(v % k == 0 for v in la.t.values()):
                 return la.c % k
             # undecided remainder: fork on "divisible"; on the divisible branch introduce the quotient
+            memo = run.__dict__.setdefault("modfacts", {})
+            if (la.key(), k) in memo:
+                return memo[(la.key(), k)]
             c = run.choose(2, f"{la} % {k}")
             if c == 0:
                 # divisible: la = k*q for a fresh q  (solve for one unit-coefficient symbol)
@@ -1049,7 +1079,8 @@ class SerEval:
                         run.cons.sub[s] = (Lin(0, {q: k}) - rest).mul(1 if v == 1 else -1)
                         return 0
                 raise Unsupported("cannot express divisibility")
-            return self._nonzero_sym(run, f"rem({la}%{k})", k - 1)
+            memo[(la.key(), k)] = self._nonzero_sym(run, f"rem({la}%{k})", k - 1)
+            return memo[(la.key(), k)]
         if isinstance(op, ast.FloorDiv):
             la, lb = run.cons.norm(self.to_lin(a, run)), self.to_lin(b, run)
             if lb.is_const() and lb.c > 0 and all(v % lb.c == 0 for v in la.t.values()) and la.c % lb.c == 0:
@@ -1065,6 +1096,9 @@ class SerEval:
         if isinstance(op, (ast.Is, ast.IsNot)):
             if a is None or b is None:
                 r = (a is None) == (b is None)
+                return r if isinstance(op, ast.Is) else not r
+            if isinstance(a, (EnumV, EnumMember)) and isinstance(b, (EnumV, EnumMember)):
+                r = self.compare(ast.Eq(), a, b, run)  # enum members are singletons
                 return r if isinstance(op, ast.Is) else not r
             raise Unsupported("identity comparison")
         if isinstance(op, (ast.In, ast.NotIn)):
@@ -1181,6 +1215,16 @@ class SerEval:
                 v = self.repo.fold(e, env["#mod"], env.get("#cls"))
                 if v is not NOFOLD:
                     return self.lift(v)
+            if isinstance(e.value, ast.Call) and isinstance(e.value.func, ast.Name) and e.value.func.id == "super" and not e.value.args:
+                fi_ = env.get("#fi")
+                ctx_ = env.get("#cls")
+                if fi_ is None or fi_.cls is None or ctx_ is None:
+                    raise Unsupported("super() outside a method")
+                mro = self.repo.mro(ctx_)
+                for b_ in mro[mro.index(fi_.cls) + 1:] if fi_.cls in mro else []:
+                    if e.attr in b_.methods:
+                        return ("#bound", b_.methods[e.attr], env.get("self"), ctx_)
+                raise Unsupported(f"super().{e.attr} not found")
             base = self.expr(e.value, env, run)
             if isinstance(base, tuple) and len(base) == 2 and base[0] == "#class":
                 v = self.repo.const(base[1], e.attr)
@@ -1400,6 +1444,29 @@ class SerEval:
             return BV(bits)
         if fn in ("cast",):
             return self.expr(c.args[1], env, run)
+        if fn in INVERSE_PAIRS and len(c.args) == 1:
+            v = self.expr(c.args[0], env, run)
+            if isinstance(v, str):
+                try:
+                    import socket as _s
+                    return Bytes(tuple(BV.const(x) for x in _s.inet_aton(v)))
+                except OSError:
+                    raise AbstractRaise("OSError", "invalid address literal") from None
+            if isinstance(v, StrV):
+                n = INVERSE_PAIRS[fn][1]
+                return Bytes((Blob(("t", fn, v.name), Lin(0), Lin(n)),))
+            raise Unsupported(f"{fn} of {v!r}")
+        if fn in {inv for inv, _ in INVERSE_PAIRS.values()} and len(c.args) == 1:
+            b = self.norm_bytes(self.as_bytes(self.expr(c.args[0], env, run), run), run)
+            fwd, n = next((k, vv[1]) for k, vv in INVERSE_PAIRS.items() if vv[0] == fn)
+            if not self.test(self.length(b, run) - n, "==", run):
+                raise AbstractRaise("OSError", f"{fn} needs {n} octets")
+            if len(b.parts) == 1 and isinstance(b.parts[0], Blob) and b.parts[0].origin[:2] == ("t", fwd) and b.parts[0].lo == Lin(0) and b.parts[0].hi == Lin(n):
+                return StrV(b.parts[0].origin[2])
+            if all(isinstance(p, BV) and p.is_const() for p in b.parts):
+                import socket as _s
+                return _s.inet_ntoa(bytes(p.value() for p in b.parts))
+            return StrV(f"{fn}({b!r})")
         f = c.func
         args = [self.expr(a, env, run) for a in c.args]
         kwargs = {k.arg: self.expr(k.value, env, run) for k in c.keywords if k.arg}
@@ -1435,6 +1502,27 @@ class SerEval:
                 bv = self.fit(selfv.fields["raw"], 16, run, "address.to_knx()")
                 return Bytes((bv.shr(8).take(8), bv.take(8)))
             return self.call_function(m, args, kwargs, run, self_val=selfv, ctx=ctx)
+        if isinstance(target, tuple) and len(target) == 3 and target[0] == "#closure":
+            _, node, outer = target
+            names = [x.arg for x in node.args.args]
+            inner = dict(outer)
+            for i, n_ in enumerate(names):
+                if i < len(args):
+                    inner[n_] = args[i]
+                elif n_ in kwargs:
+                    inner[n_] = kwargs[n_]
+                else:
+                    raise Unsupported(f"closure {node.name}: missing argument {n_}")
+            run.depth += 1
+            try:
+                if run.depth > 12:
+                    raise Unsupported("inlining depth")
+                self.block(node.body, inner, run)
+            except _Return as r:
+                return r.value
+            finally:
+                run.depth -= 1
+            return None
         if isinstance(target, tuple) and len(target) == 2 and target[0] == "#class":
             return self.construct(target[1], args, kwargs, run)
         if isinstance(target, ClassInfo):
